@@ -73,7 +73,7 @@ KPARTS = {"kcase": ("c29kcase", "c29k_mismatches", "scoreSymbolKind/ParseSymbolK
           "tcase": ("c29tcase", "c29t_mismatches", "calculateTermFrequency + scoreFileBM25/scoreLineBM25")}
 
 
-def par_eval(ctx, pid, imports, case_type, fn, terms, shard, workers=6, tag=""):
+def par_eval(ctx, pid, imports, case_type, fn, terms, shard, workers=8, tag=""):
     """vf.coq_eval_cases on shards, several coqc processes at a time"""
     from concurrent.futures import ThreadPoolExecutor
     chunks = [(s_, terms[s_:s_ + shard]) for s_ in range(0, len(terms), shard)]
@@ -105,7 +105,7 @@ def check(ctx, pre_broken=None):
     with ThreadPoolExecutor(max_workers=3) as ex:
         f1 = ex.submit(vf.go_harness, ctx, h["pkg_dir"], h["run"], h["files"], ctx.n(h["n_quick"], h["n_thorough"]), env=h.get("env"), timeout=to, out_name="out-index.jsonl")
         f2 = ex.submit(vf.go_harness, ctx, "search", "TestVerifC29Search$", ["search/zz_verif_c29_test.go"], ctx.n(60, 1200), timeout=to, out_name="out-search.jsonl")
-        f3 = ex.submit(vf.go_harness, ctx, "index", "TestVerifC29K$", ["index/zz_verif_c29_test.go", "index/zz_verif_c29k_test.go"], ctx.n(40, 500), env=h.get("env"), timeout=to, out_name="out-kinds.jsonl")
+        f3 = ex.submit(vf.go_harness, ctx, "index", "TestVerifC29K$", ["index/zz_verif_c29_test.go", "index/zz_verif_c29k_test.go"], ctx.n(40, 300), env=h.get("env"), timeout=to, out_name="out-kinds.jsonl")
         proofs = vf.coq_props(ctx, pid)
         T["proofs"] = round(time.time() - t0, 1)
         aok, aout = vf.audit()
